@@ -220,10 +220,29 @@ pub fn cfg_json(level: LuaLanguageLevel, doc: bool) -> Value {
 }
 
 /// implementation-side oracle for one text and configuration; returns the first failure
+/// facts about one parse, computed where the parse runs (normally the watchdog child process)
+pub struct ParseFacts {
+    pub errors: usize,
+    pub too_deep: bool,
+    pub lexer_tokens: usize,
+    pub failure: Option<String>,
+}
+
 pub fn oracle_text(text: &str, level: LuaLanguageLevel, doc: bool) -> Option<String> {
+    oracle_text_ex(text, level, doc).failure
+}
+
+pub fn oracle_text_ex(text: &str, level: LuaLanguageLevel, doc: bool) -> ParseFacts {
     let t = text.to_string();
+    let facts = std::sync::Arc::new(std::sync::Mutex::new((0usize, false, 0usize)));
+    let facts2 = facts.clone();
     let r = vh_common::catch(move || {
         let tree = LuaParser::parse(&t, config(level, doc));
+        {
+            let mut f = facts2.lock().unwrap();
+            f.0 = tree.get_errors().len();
+            f.1 = tree.get_errors().iter().any(|e| e.message.contains("too many syntax levels"));
+        }
         let root = tree.get_red_root();
         let got = root.text().to_string();
         if got != t {
@@ -253,6 +272,7 @@ pub fn oracle_text(text: &str, level: LuaLanguageLevel, doc: bool) -> Option<Str
         }
         // the lexer on its own
         let toks = LuaLexer::new(Reader::new(&t), LexerConfig::new(level), None).tokenize();
+        facts2.lock().unwrap().2 = toks.len();
         let mut p = 0usize;
         for tk in &toks {
             if tk.range.start_offset != p {
@@ -265,10 +285,12 @@ pub fn oracle_text(text: &str, level: LuaLanguageLevel, doc: bool) -> Option<Str
         }
         None
     });
-    match r {
+    let failure = match r {
         Ok(v) => v,
         Err(e) => Some(format!("panic: {e}")),
-    }
+    };
+    let f = facts.lock().map(|g| *g).unwrap_or((0, false, 0));
+    ParseFacts { errors: f.0, too_deep: f.1, lexer_tokens: f.2, failure }
 }
 
 /// class of an input for the known-findings ledger (computed from the input only)
@@ -478,12 +500,19 @@ pub fn run(args: &Args, report: &mut Report) {
         let level = level_of(inp["level"].as_str().unwrap_or("Lua55"));
         let doc = inp["doc"].as_bool().unwrap_or(true);
         report.evaluations = 1;
-        if let Some(f) = oracle_text(&text, level, doc) {
-            report.oracle_failure(json!({"input": {"text_hex": hex(&text), "text": text, "level": level_name(level), "doc": doc},
-                "what": f, "class": classify(&text)}));
+        let case = crate::c02::Case { text: text.clone(), level, doc, label: "replay".into(), depth: 0 };
+        let o = crate::c02::run_cases(std::slice::from_ref(&case));
+        let input = json!({"text_hex": hex(&text), "text": text, "level": level_name(level), "doc": doc});
+        match &o[0] {
+            crate::c02::Outcome::Ok { failure: None, .. } => {
+                tie_parse(&[(text.clone(), level, doc)], report);
+                tie_core(&[(text, level, doc)], report);
+            }
+            crate::c02::Outcome::Ok { failure: Some(f), .. } => {
+                report.oracle_failure(json!({"input": input, "what": f, "class": classify(&text)}));
+            }
+            other => report.oracle_failure(json!({"input": input, "what": format!("parser did not return a tree on this input: {}", other.describe()), "class": classify(&text)})),
         }
-        tie_parse(&[(text.clone(), level, doc)], report);
-        tie_core(&[(text, level, doc)], report);
         return;
     }
 
@@ -554,9 +583,13 @@ pub fn run(args: &Args, report: &mut Report) {
             texts.push((t, cls));
         }
     }
-    let mut tie_cases: Vec<(String, LuaLanguageLevel, bool)> = Vec::new();
+    // Every parse of a generated input runs in the watchdog child process first (2 MiB thread, time
+    // budget, address-space limit): a hang, abort or memory blow-up of the parser is a concrete oracle
+    // failure for that input and the run goes on; only inputs the child handled are parsed in-process
+    // (model ties) afterwards.
     let tie_every = if args.thorough() { 8 } else { 4 };
-    let mut seen_t: HashSet<(String, usize, bool)> = HashSet::new();
+    let mut planned: Vec<crate::c02::Case> = Vec::new();
+    let mut plan_meta: Vec<(&'static str, bool)> = Vec::new(); // (class, tie_this)
     for (k, (t, cls)) in texts.iter().enumerate() {
         // corpus entries run under every configuration, generated texts under one random + default
         let cfgs: Vec<(LuaLanguageLevel, bool)> = if *cls == "corpus" || *cls == "prefix-family" {
@@ -574,22 +607,7 @@ pub fn run(args: &Args, report: &mut Report) {
             vec![(LEVELS[rng.below(8)], rng.chance(3, 4)), (LuaLanguageLevel::Lua55, true)]
         };
         for (level, doc) in cfgs {
-            report.evaluations += 1;
-            report.count(&format!("text_{cls}"));
-            report.count(&format!("level_{}", level_name(level)));
-            if !doc { report.count("doc_off"); }
-            if t.contains('\0') { report.count("has_nul"); }
-            if t.contains('\r') { report.count("has_cr"); }
-            if t.starts_with('\u{feff}') || t.contains('\u{feff}') { report.count("has_bom"); }
             let lidx = LEVELS.iter().position(|l| *l == level).unwrap_or(0);
-            let ntoks = LuaLexer::new(Reader::new(t), LexerConfig::new(level), None).tokenize().len();
-            if ntoks >= 2 && seen_t.insert((t.clone(), lidx, doc)) {
-                report.distinct_nontrivial += 1;
-            }
-            if let Some(f) = oracle_text(t, level, doc) {
-                report.oracle_failure(json!({"input": {"text_hex": hex(t), "text": t, "level": level_name(level), "doc": doc},
-                    "what": f, "class": classify(t)}));
-            }
             let tie_this = match *cls {
                 "corpus" => true,
                 "prefix-family" => lidx % 4 == 0,
@@ -598,8 +616,38 @@ pub fn run(args: &Args, report: &mut Report) {
                 "doc-family" => lidx % 2 == 0,
                 _ => k % tie_every == 0,
             };
-            if tie_this {
-                tie_cases.push((t.clone(), level, doc));
+            planned.push(crate::c02::Case { text: t.clone(), level, doc, label: cls.to_string(), depth: 0 });
+            plan_meta.push((*cls, tie_this));
+        }
+    }
+    let outcomes = crate::c02::run_cases(&planned);
+    let mut tie_cases: Vec<(String, LuaLanguageLevel, bool)> = Vec::new();
+    let mut seen_t: HashSet<(String, usize, bool)> = HashSet::new();
+    for ((c, (cls, tie_this)), o) in planned.iter().zip(plan_meta.iter()).zip(outcomes.iter()) {
+        let (t, level, doc) = (&c.text, c.level, c.doc);
+        report.evaluations += 1;
+        report.count(&format!("text_{cls}"));
+        report.count(&format!("level_{}", level_name(level)));
+        if !doc { report.count("doc_off"); }
+        if t.contains('\0') { report.count("has_nul"); }
+        if t.contains('\r') { report.count("has_cr"); }
+        if t.contains('\u{feff}') { report.count("has_bom"); }
+        let lidx = LEVELS.iter().position(|l| *l == level).unwrap_or(0);
+        let input = json!({"text_hex": hex(t), "text": if t.len() <= 4000 { t.as_str() } else { "(long, see text_hex)" }, "level": level_name(level), "doc": doc});
+        match o {
+            crate::c02::Outcome::Ok { lexer_tokens, failure, .. } => {
+                if *lexer_tokens >= 2 && seen_t.insert((t.clone(), lidx, doc)) {
+                    report.distinct_nontrivial += 1;
+                }
+                if let Some(f) = failure {
+                    report.oracle_failure(json!({"input": input, "what": f, "class": classify(t)}));
+                } else if *tie_this {
+                    tie_cases.push((t.clone(), level, doc));
+                }
+            }
+            other => {
+                report.count("parser_did_not_return");
+                report.oracle_failure(json!({"input": input, "what": format!("parser did not return a tree on this input: {}", other.describe()), "class": classify(t)}));
             }
         }
     }
